@@ -1,3 +1,51 @@
-(* placeholder until the padding proofs are written *)
-From Coq Require Import ZArith.
-Theorem C11_placeholder : True. Proof. exact I. Qed.
+(* C11 - zero padding: trailing zeros are ignored when tolerated, rejected when not.  Statements only. *)
+From Coq Require Import ZArith List Bool String.
+From UDS Require Import Lib.Bytes Lib.ErrM Lib.PyOps Model.Message Model.Client Model.Services Model.Svc_Did Model.Svc_Dtc
+  Proofs.C02_lemmas.
+Import ListNotations.
+Open Scope Z_scope.
+
+(* DTC record lists (all subfunctions decoded by the 4-byte record loop): tolerance on, ignore on: any number n of
+   trailing zero bytes after any complete valid record list changes nothing *)
+Theorem C11_dtc_tolerant : forall pc sub l pre acc n fuel,
+  Forall wf_rec4 l -> Forall (fun x => x <> (0, 0)) l -> pc_tol pc = true -> pc_ign pc = true ->
+  (List.length l + n < fuel)%nat ->
+  loop_records fuel pc sub false (pre ++ recs4 l ++ repeat 0 n) (List.length pre) acc = inr (acc ++ map dtc4 l).
+Proof. exact loop_records_tolerant. Qed.
+Print Assumptions C11_dtc_tolerant.
+
+(* tolerance off: 1..3 trailing zero bytes (not a whole record) are refused *)
+Theorem C11_dtc_strict : forall pc sub pre acc n fuel,
+  (1 <= n <= 3)%nat -> (0 < fuel)%nat -> pc_tol pc = false -> sub <> 9 ->
+  loop_records fuel pc sub false (pre ++ repeat 0 n) (List.length pre) acc = inl EInvalid.
+Proof. exact loop_records_strict_partial. Qed.
+Print Assumptions C11_dtc_strict.
+
+(* WWH-OBD: same two statements (tolerant: C02_wwh_obd_records with n > 0) *)
+Theorem C11_wwh_tolerant : forall pc l acc fuel n,
+  Forall wf_rec5 l -> (pc_ign pc = true -> Forall (fun x => x <> (0, 0, 0)) l) ->
+  (List.length l + n < fuel)%nat -> (n = 0%nat \/ (pc_tol pc = true /\ pc_ign pc = true)) ->
+  loop_wwh fuel pc (flat_map rec5 l ++ repeat 0 n) acc = inr (acc ++ map dtc5 l).
+Proof. exact loop_wwh_decode. Qed.
+Theorem C11_wwh_strict : forall pc fuel d,
+  (0 < fuel)%nat -> (1 <= List.length d <= 4)%nat -> pc_tol pc = false -> loop_wwh fuel pc d [] = inl EInvalid.
+Proof. exact loop_wwh_strict_partial. Qed.
+Print Assumptions C11_wwh_strict.
+
+(* ReadDataByIdentifier: tolerance on and DID 0x0000 not configured: any number of trailing zero bytes ends the parse
+   with the values read so far; tolerance off: a lone trailing byte is refused *)
+Theorem C11_dids_tolerant : forall pc req pre vals n fuel,
+  (0 < fuel)%nat -> pc_tol pc = true -> lookup 0 (pc_dids pc) = None ->
+  rdbi_loop fuel pc req (pre ++ repeat 0 n) (List.length pre) vals = inr vals.
+Proof. exact rdbi_loop_padding. Qed.
+Print Assumptions C11_dids_tolerant.
+Theorem C11_dids_strict : forall pc req pre vals b fuel,
+  (0 < fuel)%nat -> pc_tol pc = false ->
+  rdbi_loop fuel pc req (pre ++ [b]) (List.length pre) vals = inl EInvalid.
+Proof. exact rdbi_loop_strict_one. Qed.
+Print Assumptions C11_dids_strict.
+
+(* C11_partial: with ignore_all_zero_dtc off the whole all-zero records among the padding become DTC 0 records (the
+   exception clause of the property); that case, the 6-byte severity records, the fault-counter / snapshot /
+   extended-data decoders, io_control, read_memory_by_address and request_file_transfer are covered by the
+   padding correspondence (every pad length 0..2*rs+1, four settings), not yet by a Coq theorem. *)
